@@ -760,6 +760,27 @@ def c18_shapes(tier):
     return shapes
 
 
+WIDE_PROPS = ('C02', 'C03', 'C05', 'C06', 'C08')
+
+
+def widened(shapes):
+    """thorough tier: every shape whose values are plain digit / string slots once more with every such slot one byte longer
+    (d1..d3 -> d2..d4, s2/s3 -> s3/s4); the expectation refers to the slots by index and stays the same.  Shapes with range slots (r, z, a, b) and the
+    configurations with length / pattern checks on the values (cfg 1, 16) are left out - their verdict depends on the number of bytes."""
+    out = []
+    for sh in shapes:
+        if len(sh) < 4 or 'pa_tmpl' not in sh[3] or re.search(r'cfg(1|16)\b|pattern', sh[2]):      # cfg 1 / 16: length and pattern checks on the values
+            continue
+        head, slots, rest = sh[3]['pa_tmpl'].split(b'\n', 2)
+        sl = slots.decode().split()
+        if not sl or not all(re.fullmatch(r'[ds][1-3]', x) for x in sl):
+            continue
+        wide = ' '.join('%s%d' % (x[0], int(x[1]) + 1) for x in sl).encode()
+        d = dict(sh[3]); d['pa_tmpl'] = head + b'\n' + wide + b'\n' + rest
+        out.append((sh[0], sh[1], sh[2] + ' /wide', d))
+    return out
+
+
 def build_unit(name, shapes, tier, bounds):
     return E2Unit(name, os.path.join(HERE, 'w_usage.cpp' if name.endswith('C18') else 'w_pa.cpp'), lib_srcs=lib_srcs(), shapes=shapes, timeout=900 if tier == 'quick' else 2400,
                   max_steps=4000000, conc_cap=300, bounds=bounds, validate_vectors=10)
@@ -778,6 +799,8 @@ ASSUME = ['IR of the unmodified library sources (clang++-14 -O1 -D_GLIBCXX_ASSER
 def main(prop, tier, only=None):
     gens = dict(C01=c01_shapes, C02=c02_shapes, C03=c03_shapes, C04=c04_shapes, C05=c05_shapes, C06=c06_shapes, C07=c07_shapes, C08=c08_shapes, C18=c18_shapes)
     shapes = gens[prop](tier)
+    if tier != 'quick' and prop in WIDE_PROPS:
+        shapes = shapes + widened(shapes)
     if only:
         shapes = [s for s in shapes if re.search(only, s[2])]
     u = build_unit('prog_args_' + prop, shapes, tier, dict(handler='fixed configuration family (see w_pa.cpp)', values='symbolic', shapes=len(shapes)))
